@@ -63,6 +63,8 @@ class Gen(object):
                 base = self.cls(t['base']) if t.get('base') else ComplexModel
                 d = {'__namespace__': t.get('ns', self.tns),
                      '_type_info': [(n, self.cls(ft)) for n, ft in t['fields']]}
+                if 'tname' in t:
+                    d['__type_name__'] = t['tname']
                 self.objs[key] = type(str(t['name']), (base,), d)
             c = self.objs[key]
         elif k == 'arr':
